@@ -10,7 +10,8 @@ CFGS_NOIMM = [c for c in CFGS if not c.startswith("1 ")]
 class Prop(PropBase):
     ID = "C03"
     LEAN_MODULES = ["Tpp.Props.C03"]
-    REQUIRED = ["Tpp.Props.C03." + n for n in ("C03_draw_converges", "C03_frames_partial", "C03_immediate_counterexample")]
+    REQUIRED = ["Tpp.Props.C03." + n for n in ("C03_draw_converges", "C03_frames_partial", "C03_first_draw", "C03_immediate_scrolls",
+                                                "C03_immediate_counterexample")] + ["Tpp.draw_frame", "Tpp.draw_loop", "Tpp.place_one"]
     RULE = ("random sequences of frames on canvases 1x1..8x5 with 0-4 (or all) cells edited between draws, attribute-only "
             "edits, reverted cells, repeated draws, size changes incl. same-area reshapes (terminal resized and set_size "
             "declared with the canvas), first draw on an uninitialised terminal; exhaustive: every single-cell edit of a "
